@@ -11,5 +11,6 @@ CONSTANTS
   OpenLimit = 2000
   EmitMod = 1
   EmitRem = 0
+  Fixed = {}
 CONSTRAINT TVerdict
 CHECK_DEADLOCK FALSE
